@@ -63,6 +63,7 @@ type Ctx struct {
 	forks       []*FState
 	pendingObs  []pendingOb
 	concrete    *replayFile
+	liftGuard   *Term
 	dbgModel    map[string]uint64
 	dbgPendingModel map[string]uint64
 	dbgChoices  map[string]int
